@@ -202,13 +202,29 @@ client_skip_proxy(struct archive_read_filter *self, int64_t request)
 		 * the seeker here may be a performance loss compared
 		 * to just reading and discarding.  That's why we
 		 * only do this for skips of over 64k.
+		 *
+		 * Offsets are those of the current data node, not of
+		 * the whole stream, and a seek may land beyond the end
+		 * of the node: skip no further than the node's end and
+		 * let the caller read (and switch nodes) for the rest.
 		 */
-		int64_t before = self->position;
-		int64_t after = (self->archive->client.seeker)
-		    (&self->archive->archive, self->data, request, SEEK_CUR);
+		int64_t before, end, after;
+		before = (self->archive->client.seeker)
+		    (&self->archive->archive, self->data, 0, SEEK_CUR);
+		if (before < 0)
+			return 0;
+		end = (self->archive->client.seeker)
+		    (&self->archive->archive, self->data, 0, SEEK_END);
+		if (end < before)
+			request = 0;
+		else if (request > end - before)
+			request = end - before;
+		after = (self->archive->client.seeker)
+		    (&self->archive->archive, self->data,
+		    before + request, SEEK_SET);
 		if (after != before + request)
 			return ARCHIVE_FATAL;
-		return after - before;
+		return request;
 	}
 	return 0;
 }
